@@ -8,7 +8,7 @@ META = {
             'running mask byte) of lengths 0..300 around every block/buffer boundary, sequences of furigana lines; used as instruction arguments under every string encoding (block-padded, fixed buffer '
             '+/- nulless, length-prefixed, masked, furibug) via user signatures and via the built-in MSG signatures of TH06-TH18, and as STD names, ANM paths and mission lines; '
             'oracle: decompiled literal == source string, or the compile fails with an error when the string is unencodable / does not fit. distinct = hash(string, encoding); non-trivial = string has >= 2 characters',
-    'assumptions': ['"unambiguous Shift-JIS" = characters on which python\'s shift_jis and cp932 codecs agree and round-trip, excluding backslash and tilde'],
+    'assumptions': ['"unambiguous Shift-JIS" = characters on which python\'s shift_jis and cp932 codecs agree and round-trip (backslash and tilde included: WHATWG Shift_JIS, which truth uses, maps 0x5C/0x7E to them both ways)'],
     'floors': {'strings_survived': 300, 'rejected_as_expected': 20, 'encodings': 8, 'msg_builtin_games': 6, 'metadata_strings': 40},
 }
 SIZES = {'quick': 3600, 'thorough': 40000}
@@ -44,6 +44,9 @@ def gen_string(r, maxchars=60, mask=None):
             b = next(ms)
             s += chr(b) if 0x20 <= b < 0x7f and chr(b) in R['all'] else r.pick(R['ascii'])
     else: s = ''.join(r.pick(r.pick([R['ascii'], R['kana'], R['kanji'], R['trail5c']])) for _ in range(n))
+    if n and r.chance(0.12):
+        # path-like text: backslashes (the escape character of the source syntax) without any other character that needs escaping
+        i = r.randrange(len(s)); s = s[:i] + r.pick(['\\', '\\\\', 'data\\eff01.anm', '\\n', 'a\\"', '~']) + s[i + 1:]
     if s[:1] == '|' and r.chance(0.7): s = 'x' + s[1:]
     return s
 
